@@ -147,6 +147,8 @@ pub mod model {
         /// up to two queries (by index) whose message octets are captured for comparison
         pub cap_idx: [usize; 2],
         pub cap: [[u8; CAP_LEN]; 2],
+        /// first DST_HEAD octets of every query's DST (domain-separation checks)
+        pub dst_head: [[u8; DST_HEAD]; 12],
         /// number of random draws so far (used by the rand model's `fixedrand` mode; kept here so
         /// that the whole build has exactly ONE mutable static)
         pub draw_n: usize,
@@ -154,9 +156,11 @@ pub mod model {
     #[cfg(feature = "prog")]
     pub const CAP_LEN: usize = 448;
     #[cfg(feature = "prog")]
+    pub const DST_HEAD: usize = 56;
+    #[cfg(feature = "prog")]
     pub static mut ORACLE: Oracle = Oracle {
         on: false, n: 0, ans: [0; 12], msg_len: [0; 12], dst_len: [0; 12],
-        cap_idx: [usize::MAX; 2], cap: [[0; CAP_LEN]; 2], draw_n: 0,
+        cap_idx: [usize::MAX; 2], cap: [[0; CAP_LEN]; 2], dst_head: [[0; DST_HEAD]; 12], draw_n: 0,
     };
     #[cfg(feature = "prog")]
     pub fn oracle() -> &'static mut Oracle {
@@ -184,6 +188,16 @@ pub mod model {
         }
         o.msg_len[k] = ml;
         o.dst_len[k] = dl;
+        // head of the (single-slice) DST
+        if dsts.len() > 0 {
+            let d = dsts[0];
+            let n = if d.len() < DST_HEAD { d.len() } else { DST_HEAD };
+            let mut i = 0;
+            while i < n {
+                o.dst_head[k][i] = d[i];
+                i += 1;
+            }
+        }
         let mut c = 0;
         while c < 2 {
             if o.cap_idx[c] == k {
